@@ -110,6 +110,9 @@ class SemiStrictBool:
 
 
 def validate_binary(value: Any) -> bytearray:
+    if isinstance(value, (bytes, bytearray)):
+        # Already decoded: the value a dumped model holds
+        return value
     try:
         value = b64decode(value)
     except (binascii.Error, TypeError, ValueError):
